@@ -32,6 +32,7 @@ MIN_NONTRIVIAL_FRACTION = 0.3
 RULE += " Added after the seeded rounds: " + 'Stage names may repeat; a second run of the same cascade must equal the first; gates, processors and handlers raise one of 16 exception types.'
 RULE += ' 1/40 of the cases run the cascade 1001 more times before the comparison run (bound of the result history).'
 RULE += ' Exceptions raised by gates, processors and handlers may carry no message at all or a falsy one.'
+RULE += " Round 7: `other` = a second cascade (opposite or same failure mode, or the MAPK preset; idle or run once) constructed in the same process after the pipeline under test and before its run."
 EXHAUSTIVE_NOTE = {"quick": "all pipelines of 1..2 stages over 48 stage behaviours x halt on/off (2*(48+2304) = 4704), complete",
                    "thorough": "all pipelines of 1..3 stages over 48 stage behaviours x halt on/off (2*(48+2304+110592) = 225888), complete"}
 
@@ -49,6 +50,7 @@ _json = st.recursive(st.one_of(st.none(), st.booleans(), st.integers(-5, 5), st.
 
 def strategy(tier):
     plain = st.fixed_dictionaries({"halt": st.booleans(), "max_amp": st.sampled_from([10, 100]), "input": st.integers(0, 3), "exc": st.integers(0, 15), "names": st.sampled_from(["unique", "unique", "same", "pairs"]), "reruns": st.sampled_from([0] * 39 + [1001]), "build": st.sampled_from(["append", "append", "insert-front", "decoy"]),
+                                   "other": st.sampled_from([None] * 6 + [["opposite", "idle"], ["opposite", "run"], ["opposite", "reject"], ["same", "run"], ["mapk", "idle"], ["mapk", "run"]]),
                                    "stages": st.lists(_stage, min_size=1, max_size=5)})
     mapk = st.fixed_dictionaries({"mapk": st.just(True), "halt": st.booleans(), "max_amp": st.sampled_from([10, 100, 1000, 5000]),
                                   "amps": st.lists(st.sampled_from([0.5, 1, 2, 10, 200, 0.1, 0.01, 4, 50, 0.5, 0.1]), min_size=3, max_size=3), "input": _json})
@@ -85,6 +87,12 @@ def enumerate_cases(tier):
         yield {"halt": True, "max_amp": 10, "input": 0, "stages": [one], "parallel": True}
         for cp2 in CPS:
             yield {"halt": False, "max_amp": 10, "input": 1, "stages": [one, {"cp": cp2, "proc": "pass", "err": "none", "required": True, "amp": 2}], "parallel": True}
+    for cp, proc, req in itertools.product(CPS, ["pass", "raise"], [True, False]):
+        one = {"cp": cp, "proc": proc, "err": "none", "required": req, "amp": 2}
+        for halt in (True, False):
+            for other in (["opposite", "idle"], ["opposite", "run"], ["mapk", "idle"]):
+                for cp2 in CPS:
+                    yield {"halt": halt, "max_amp": 10, "input": 1, "other": other, "stages": [one, {"cp": cp2, "proc": "pass", "err": "none", "required": True, "amp": 2}]}
     depth = 3 if tier == "thorough" else 2
     behaviours = []
     for cp, proc, err, req in itertools.product(CPS, ["pass", "raise"], ["none", "pass", "raise"], [True, False]):
@@ -190,6 +198,22 @@ def _build(case, log):
             raise HarnessError("remove_stage did not find the decoy")
     else:
         raise HarnessError("unknown build mode %r" % (build,))
+    other = case.get("other")
+    if other:
+        # another pipeline alive in the same process, constructed after the one under test (opposite failure mode, other ceiling, or the preset),
+        # optionally run once on its own input: a run is governed by its own cascade's settings only
+        from operon_ai.topology.cascade import MAPKCascade
+        if other[0] == "mapk":
+            o = MAPKCascade(halt_on_failure=not case["halt"], silent=True)
+        else:
+            o = Cascade("other", max_amplification=3, halt_on_failure=(not case["halt"]) if other[0] == "opposite" else case["halt"], silent=True)
+            o.add_stage(CascadeStage(name="o0", processor=lambda sig: sig, amplification=2, checkpoint=(lambda sig: False) if other[1] == "reject" else None))
+            o.add_stage(CascadeStage(name="o1", processor=lambda sig: sig, amplification=2))
+        if other[1] != "idle":
+            try:
+                o.run("other input")
+            except Exception:  # noqa: BLE001 - the other pipeline is not under test
+                pass
     return c
 
 
